@@ -91,7 +91,8 @@ def run(ctx):
     ok = False
     arr = None
     if len(cs) == 1 and cs[0].args:
-        e = cs[0].args[0]
+        # named intermediate steps are read through (`segment_divs = np.diff(x)`, `x = K[:, 0]`, ...)
+        e = X.expand_single_defs(cs[0].args[0], X.local_defs(ti), depth=4)
         if isinstance(e, ast.BinOp) and isinstance(e.op, ast.Div) and isinstance(e.right, ast.Subscript) and isinstance(e.right.value, ast.Name) \
                 and isinstance(e.left, ast.BinOp) and isinstance(e.left.op, ast.Mult):
             arr = e.right.value.id
